@@ -182,7 +182,6 @@ theorem allocateTables_meas (r : Reg) (hm : 0 < r.max) : MLe r.allocateTables r 
 
 /-! ### draining the queue -/
 
-theorem WF.maxpos {r : Reg} (hwf : WF r) : 0 < r.max := by have := hwf.min2; have := hwf.minmax; omega
 
 theorem dispatchLoop_MLe {fuel : Nat} {cands rest : List Nat} {r r' : Reg} (hwf : WF r)
     (h : dispatchLoop fuel cands r = (rest, r')) (hb : r'.badChoice = false) : MLe r' r := by
